@@ -40,7 +40,7 @@ pub struct Gen {
 
 const WIDE: &[u32] = &[0x4E00, 0x3042, 0xFF21, 0x1F600, 0xAC00, 0x4E8C];
 const ZERO: &[u32] = &[0x0301, 0x0308, 0x20DD, 0x200B, 0x200D, 0xFE0F, 0x0483];
-const ODD: &[u32] = &[0x00AD, 0x0378, 0xE000, 0x10FFFF, 0x00A0, 0x00FF, 0x0100, 0x2028, 0x1160, 0xFFFC];
+const ODD: &[u32] = &[0x2E3B, 0x2E3B, 0x00AD, 0x0378, 0xE000, 0x10FFFF, 0x00A0, 0x00FF, 0x0100, 0x2028, 0x1160, 0xFFFC];
 
 fn push_char(out: &mut Vec<u8>, cp: u32) {
     if let Some(c) = char::from_u32(cp) {
